@@ -20,6 +20,7 @@ LEVEL_TEXT = (
     'and leaves the Adj-RIB-In, with attribute-discard exactly that attribute is gone and every other value equals the reference decoding, '
     'and in no case is a route reported or stored with a shortened or misparsed value.'
     ' The corrupted UPDATE is sent again (0-2 copies must be treated alike); some sessions negotiate extended next hop.'
+    ' On 2-byte sessions a well-formed AS4_PATH may sit next to the malformed attribute.'
 )
 LEVEL_NOTE = 'trusts: the RFC 7606 class table in this file, the reference decoder, the JSON mapping of C02; a more conservative outcome than the RFC class is accepted'
 DESIGN_REF = 'DESIGN.md section 5, C08'
